@@ -176,13 +176,16 @@ Qed.
 
 Section Ren.
   Variables (q : cquirks) (sg : string -> string).
-  Hypothesis Hn : q_concat_name_table q = false.
+  (* either names carry no meaning, or the renaming moves no name into or out of the name table *)
+  Hypothesis Hn : q_concat_name_table q = false
+                  \/ (forall x, smem (lower (sg x)) sc_patterns = smem (lower x) sc_patterns).
   Hypothesis Hs : cc_sigma_ok sg.
 
   Lemma likely_rename s x v : likely q (renS sg s) (sg x) (rename sg v) = likely q s x v.
   Proof.
-    destruct Hs as [Hi Hk]. unfold likely. rewrite (in_nons_ren sg x s Hi), (in_strs_ren sg x s Hi), Hn.
-    now rewrite is_string_value_rename, (is_str_call_rename sg v Hk), is_string_binop_rename.
+    destruct Hs as [Hi Hk]. unfold likely. rewrite (in_nons_ren sg x s Hi), (in_strs_ren sg x s Hi).
+    rewrite is_string_value_rename, (is_str_call_rename sg v Hk), is_string_binop_rename.
+    destruct Hn as [-> | Ht]; [reflexivity|]. now rewrite Ht.
   Qed.
 
   Lemma cand_here_rename s l r t :
